@@ -143,10 +143,25 @@ func hs(s string) string {
 	if s == "" {
 		return "-"
 	}
+	return hex.EncodeToString([]byte(StandIn(s)))
+}
+
+// StandIn: the string as the model sees it (identity for valid UTF-8).  Observations that are compared with the model's
+// strings (the requested URLs) go through the same mapping.
+func StandIn(s string) string {
 	if !utf8.ValidString(s) || strings.HasPrefix(s, "\uFFFD!") {
-		s = "\uFFFD!" + hex.EncodeToString([]byte(s))
+		return "\uFFFD!" + hex.EncodeToString([]byte(s))
 	}
-	return hex.EncodeToString([]byte(s))
+	return s
+}
+
+// JoinURLs: the canonical form of a request log whose fingerprint is compared with the model's prediction.
+func JoinURLs(urls []string) string {
+	out := make([]string, len(urls))
+	for i, u := range urls {
+		out[i] = StandIn(u)
+	}
+	return strings.Join(out, "\n")
 }
 
 func (c *factCtx) add(format string, a ...any) { c.tokens = append(c.tokens, fmt.Sprintf(format, a...)) }
